@@ -112,7 +112,17 @@ pub fn exercise(text: &str, paths: &[String]) -> Outcome {
         }
         let _ = text.parse::<Glob>();
         let _ = Glob::try_from(text);
-        for a in [wax::any([text]), wax::any([text, "a*"]), wax::any([text, "/**"])] {
+        // combinators: alone, and beside companions that span the depth / root / text lattices
+        // (`/` is the only pattern of depth zero; the empty pattern; bounded and unbounded depth)
+        for a in [
+            wax::any([text]),
+            wax::any([text, "a*"]),
+            wax::any([text, "/**"]),
+            wax::any([text, "/"]),
+            wax::any(["/", text]),
+            wax::any(["", text]),
+            wax::any([text, "<a/:1,2>b", "../c"]),
+        ] {
             if let Ok(a) = a {
                 let _ = a.depth();
                 let _ = a.text();
@@ -302,7 +312,7 @@ impl Property for C05 {
         "five generators: arbitrary UTF-8, meta-dense strings, valid ASTs with 0-3 string mutations, \
          ASTs with extreme repetition bounds (0 .. 10^30, every spelling, nested, adjacent open \
          ranges), nesting ladders (8 .. 20000 levels); every public operation is run on the result \
-         in a worker process: Glob::new, FromStr, TryFrom, any (1-2 patterns), not-pattern \
+         in a worker process: Glob::new, FromStr, TryFrom, any (1-3 patterns, beside `/`, the empty pattern, rooted / bounded / unbounded companions), not-pattern \
          construction, walk construction, all queries, partition (+ queries on the postfix), \
          is_match / matched on 6 fixed + generated paths; one evaluation = one string through all \
          operations; non-trivial = the string has >= 2 distinct meta-characters or builds; \
